@@ -34,7 +34,12 @@ pub(crate) fn synthesize_expr(
 }
 
 fn expr_signed(expr: &Expression) -> bool {
-    expr.comptime().r#type.signed
+    // Extension follows the signedness of the enclosing expression (one unsigned
+    // operand makes every context-determined operand unsigned), which the
+    // analyzer records in `expr_context`; the operand's own type only matters
+    // when it is also signed in context.
+    let c = expr.comptime();
+    c.r#type.signed && c.expr_context.signed
 }
 
 pub(crate) fn try_constant(expr: &Expression) -> Option<u64> {
